@@ -106,4 +106,34 @@ def buildL (b : BuilderCfg) : List RawNode → List Node
   | k :: ks => build b k :: buildL b ks
 end
 
+/-! ### a `Formatter` subclass that overrides `attributes()`
+
+    `_format_tag` (element.py:2556-2557) iterates over whatever `formatter.attributes(self)` returns; the base implementation
+    (`attributes` above) sorts and applies `empty_attributes_are_booleans`, a subclass may do anything with the dict's items
+    (the documentation's example yields them in insertion order). -/
+
+abbrev AttrHook := List (PStr × AttrVal) → List (PStr × AttrVal)
+
+def attrStringHook (h : AttrHook) (c : Cfg) (interp : Subst → PStr → PStr) (attrs : List (PStr × AttrVal)) : PStr :=
+  let ps := (h attrs).map (attrPiece c interp)
+  if ps.isEmpty then [] else [32] ++ [32].intercalate ps
+
+def formatTagHook (h : AttrHook) (c : Cfg) (interp : Subst → PStr → PStr) (name pfx : PStr) (attrs : List (PStr × AttrVal))
+    (isEmptyElement opening : Bool) : PStr :=
+  [60] ++ (if opening then [] else [47]) ++ (if pfx.isEmpty then [] else pfx ++ [58]) ++ name
+    ++ (if opening then attrStringHook h c interp attrs else [])
+    ++ (if isEmptyElement then voidClose c else []) ++ [62]
+
+mutual
+/-- `decode(formatter=f)` for an `f` whose `attributes()` is `h` (applied to the dict's items in insertion order) -/
+def renderHook (h : AttrHook) (c : Cfg) (interp : Subst → PStr → PStr) (parent : Option PStr) : Node → PStr
+  | .str k v => outputReady c interp parent k v
+  | .tag n p as cbe _ ks =>
+    if ks.isEmpty && cbe then formatTagHook h c interp n p as true true
+    else formatTagHook h c interp n p as false true ++ renderHookL h c interp (some n) ks ++ formatTagHook h c interp n p as false false
+def renderHookL (h : AttrHook) (c : Cfg) (interp : Subst → PStr → PStr) (parent : Option PStr) : List Node → PStr
+  | [] => []
+  | k :: ks => renderHook h c interp parent k ++ renderHookL h c interp parent ks
+end
+
 end BS.Formatter
